@@ -107,8 +107,17 @@ class CryptDoc:
         objs[3] = {"Type": Name("Page"), "Parent": Ref(2), "MediaBox": [0, 0, 612, 792],
                    "Resources": {"Font": {"F1": Ref(4)}}, "Contents": Ref(5)}
         objs[2] = {"Type": Name("Pages"), "Kids": [Ref(3)], "Count": 1}
-        objs[6] = {"Title": b"C10 title " + marker.encode(), "Producer": b"\xfe\xff\x00v\x00e\x00r\x00i\x00f"}
+        objs[6] = {"Title": Ref(40), "Producer": b"\xfe\xff\x00v\x00e\x00r\x00i\x00f"}
         item_refs = []
+        # indirect objects that ARE a string / an array / a name / a number (not a dictionary holding them)
+        objs[40] = text_of(40, "top", 5)                       # referenced from /Info /Title
+        objs[41] = text_of(41, "top", 16)
+        gens[41] = 1
+        objs[43] = HexStr(text_of(43, "top", 5))
+        objs[42] = [text_of(42, "a0", 5), [text_of(42, "a1", 16)]]
+        objs[44] = Name("VerifName")
+        objs[45] = 12345
+        item_refs += [Ref(40), Ref(41, 1), Ref(42), Ref(43), Ref(44), Ref(45)]
         # direct strings (several object numbers / generations)
         for (n, g) in self.DIRECT_NG:
             objs[n] = item_dict(n)
@@ -133,13 +142,19 @@ class CryptDoc:
         xmp = b'<?xpacket begin="" id="W5M0"?><x:xmpmeta xmlns:x="adobe:ns:meta/">verif C10</x:xmpmeta><?xpacket end="w"?>'
         objs[15] = Stream({"Type": Name("Metadata"), "Subtype": Name("XML")}, xmp)
         self.meta_id = 15
-        # objects that live in an object stream (xrefstm form only)
+        # objects that live in an object stream (cross-reference-stream and hybrid forms)
         self.packed = []
-        if c["form"] == "xrefstm":
+        if c["form"] in ("xrefstm", "hybrid"):
             for n in (20, 21):
                 objs[n] = item_dict(n)
                 self.packed.append(n)
                 item_refs.append(Ref(n))
+        if c["form"] == "xrefstmw0":
+            # /W [1 2 0]: no generation field (every generation is 0), hence no object with another generation
+            for n in [n for n, g in gens.items() if g]:
+                del objs[n]
+                del gens[n]
+            item_refs = [r for r in item_refs if r.n in objs]
         objs[1] = {"Type": Name("Catalog"), "Pages": Ref(2), "Lang": b"de-DE", "Metadata": Ref(15), "VerifItems": item_refs}
         self.objs, self.gens = objs, gens
         self.trailer_note = b"trailer note \xe9"
@@ -159,6 +174,9 @@ class CryptDoc:
                                        loc="metadata" if n == 15 else "streamdata", plain=plain,
                                        type="Metadata" if n == 15 else "plain",
                                        filt="flate" if v.attrs.get("Filter") == "FlateDecode" else "none", raw=v.data))
+            elif n in (44, 45):
+                self.items.append(dict(objid=n, gen=g, path=(), kind="atom", loc="direct", type="name" if n == 44 else "number",
+                                       plain=b"/VerifName" if n == 44 else b"12345", filt=None))
             else:
                 st = []
                 _strings(v, (), st)
@@ -179,12 +197,42 @@ class CryptDoc:
         if c["form"] == "table":
             return Revision(dict(sorted(objs.items())), form="table", root=Ref(1), info=Ref(6), trailer_extra=te,
                             gens=self.gens)
-        return Revision(dict(sorted(objs.items())), form="stream", objstm=self.packed, root=Ref(1), info=Ref(6),
-                        trailer_extra=te, gens=self.gens, split_index=True, objstm_id=30, xref_id=31)
+        if c["form"] == "xrefstmw0":
+            # written with an ordinary cross-reference stream first; _w0() then replaces that stream by one whose third
+            # field has width 0 (the shared writer always emits the free entry 0 with generation 65535)
+            self._w0_trailer = dict(te, Root=Ref(1), Info=Ref(6))
+            return Revision(dict(sorted(objs.items())), form="stream", objstm=[], root=Ref(1), info=Ref(6), trailer_extra=te,
+                            gens=self.gens, split_index=True, xref_id=31)
+        return Revision(dict(sorted(objs.items())), form="hybrid" if c["form"] == "hybrid" else "stream", objstm=self.packed,
+                        root=Ref(1), info=Ref(6), trailer_extra=te, gens=self.gens, split_index=True, objstm_id=30, xref_id=31)
+
+    def _w0(self, data, info):
+        """replace the cross-reference stream (last object of the file) by one with /W [1 n 0]: no generation field"""
+        if self.cfg["form"] != "xrefstmw0":
+            return data
+        from .pdfwriter import ser
+        pos = info["xref_pos"][0]
+        body = data[:pos]
+        ent = {0: (0, 0), 31: (1, pos)}
+        for n, off in info["offsets"][0].items():
+            ent[n] = (1, off)
+        nb = 2 if pos < 65536 else 3
+        keys = sorted(ent)
+        runs = []
+        for k in keys:
+            if runs and runs[-1][0] + runs[-1][1] == k:
+                runs[-1][1] += 1
+            else:
+                runs.append([k, 1])
+        rows = b"".join(bytes([ent[k][0]]) + ent[k][1].to_bytes(nb, "big") for k in keys)
+        d = {"Type": Name("XRef"), "Size": keys[-1] + 1, "W": [1, nb, 0], "Index": [x for r in runs for x in r],
+             "Filter": Name("FlateDecode")}
+        d.update(self._w0_trailer)
+        return body + b"31 0 obj\n" + ser(Stream(d, zlib.compress(rows))) + b"\nendobj\nstartxref\n%d\n%%%%EOF\n" % pos
 
     def original(self):
-        data, _ = build([self._revision({})])
-        return data
+        data, info = build([self._revision({})])
+        return self._w0(data, info)
 
     def encrypted(self):
         """-> (bytes, sec, log)  log: list of (n, g, kind, plain, cipher) actually encrypted by the writer"""
@@ -204,6 +252,7 @@ class CryptDoc:
             rev = self._revision({"Encrypt": ed})
             exempt = set()
         data, info = build([rev], transform_for=sec.transform_for(exempt=exempt, metadata={self.meta_id}, log=log))
+        data = self._w0(data, info)
         self.encrypt_objid = 16 if c["encplace"] == "indirect" else None
         self.objstm_id = info["objstm_ids"][0]
         self.xref_id = info["xref_ids"][0]
